@@ -78,3 +78,8 @@ claim("C13", "evloop", "fault_enumeration",
 claim("C20", "evloop", "exploration",
       "All enabled sequences over {lease won, lease removed, submit a manifest matching the on-chain version / another version / other resources, version update, chain fetch ok / error, deployment closed} up to length 4 (quick: 3 510 sequences) / 5 (thorough), plus longer random sequences, each on a fresh real manifest.manager stepped one message at a time with a scripted chain fetch. Replies are collected on reply channels of capacity 4 (a second reply is observable), ManifestReceived events by an independent bus subscriber flushed with a marker after every step; judged against a reference model: exactly one reply per submission, none outstanding when idle, announcements only with a lease, after the fetch, of a validated manifest and the latest one, acceptance implies the announcement of that hash.",
       EVLOOP_NOTE, "systematic schedule enumeration of the real event loop via loop-top hook; reply/announcement trace checked against a reference model", "DESIGN.md §5 C20")
+
+claim("C12", "evloop", "exploration",
+      "Operation sequences {reserve (groups with 1 or 2 resource entries, endpoints), unreserve, status, lookup, deployment-status events, inventory refresh} run on the real inventoryService (real bus, scripted Client.Inventory, loop stepped through its hook) next to a reference model: a grant is an alarm unless an exact backtracking bin-packer places all not-yet-deployed reservations plus the new one on the last reported available capacity and the endpoints fit the free ports; status must list one entry per outstanding reservation in the right class, identically on consecutive calls; every sequence is run with and without interleaved status queries and must give identical outcomes and final status (reads are pure); unreserve removes exactly one. Complete up to length 2 (quick) / 3 (thorough) over a 2-order alphabet, random sequences of length 8..20 over 3 commit-level sets; plus a porcupine linearizability check of concurrent reserve/unreserve/status histories.",
+      EVLOOP_NOTE + " Node capacities and group sizes are small so that the exact packer terminates; porcupine v1.3.0 judges the concurrent history (timeout => inconclusive).",
+      "reference-model monitor with exact bin-packing oracle + metamorphic read-purity check + porcupine linearizability of a recorded concurrent history", "DESIGN.md §5 C12")
